@@ -132,6 +132,21 @@ def check_roundtrip(rec: core.Recorder, obj, text: str, *, op: str, detail=None)
                 ok = False
         except Exception:
             pass
+    # reading a tree does not use it up: the same parsed document can be read again (and is still the same document)
+    try:
+        import copy as _copy
+        from physt.io import create_from_dict
+
+        tree = json.loads(text)
+        kept = _copy.deepcopy(tree)
+        create_from_dict(tree, "JSON", check_version=False)
+        if not json_equal(tree, kept):
+            rec.fail(prop="C08", monitor="C08.roundtrip", op=op, symptom="reading a document tree changed the tree", diff=["document"], detail={**detail, "first_difference": first_difference(kept, tree)})
+            ok = False
+        create_from_dict(tree, "JSON", check_version=False)
+    except Exception as e:
+        rec.fail(prop="C08", monitor="C08.roundtrip", op=op, symptom=f"the same document tree could not be read twice: {type(e).__name__}", diff=["raised"], detail={**detail, "error": str(e)[:160]})
+        ok = False
     # serialising the parsed object again gives the same document
     try:
         text2 = parsed.to_json()
